@@ -134,7 +134,14 @@ impl FilePath {
     /// * [`Path::len()`] + [`FileName::len()`] + 1 <= [`FilePath::max_len()`]
     ///
     pub const unsafe fn from_path_and_file_unchecked(path: &Path, file: &FileName) -> Self {
-        debug_assert!(path.as_bytes_const().len() + file.as_bytes_const().len() + 1 < PATH_LENGTH);
+        debug_assert!({
+            let path_len = path.as_bytes_const().len();
+            let mut required_len = path_len + file.as_bytes_const().len();
+            if 0 < path_len && path.as_bytes_const()[path_len - 1] != PATH_SEPARATOR {
+                required_len += 1;
+            }
+            required_len <= PATH_LENGTH
+        });
 
         let mut buffer = [0u8; PATH_LENGTH];
         let mut buffer_len = path.as_bytes_const().len();
